@@ -2,6 +2,8 @@
 Thin helpers around ahbicht's evaluation entry points (all calls go through sut.call).
 """
 
+from contextvars import ContextVar
+
 from vlib import ref, sut
 
 
@@ -48,8 +50,19 @@ def input_nodes(ast, assignment):
     return nodes
 
 
-def setup_for(ast_or_asts, assignment, truth=None, packages=None, hint_texts=None):
-    """inject dict based evaluators for the keys of the given AST(s)"""
+_CER = ContextVar("evalhelp_cer", default=None)
+_RECASE = {"F": ["FULFILLED", "Fulfilled", "fulfilled"], "U": ["UNFULFILLED", "Unfulfilled", "unfulfilled"],
+           "K": ["UNKNOWN", "Unknown", "unknown"]}  # fmt: skip
+
+
+def setup_for(ast_or_asts, assignment, truth=None, packages=None, hint_texts=None, style="hardcoded"):
+    """
+    inject evaluators for the keys of the given AST(s).  style:
+      "hardcoded"   dict based evaluators (ahbicht's own factory),
+      "cer"         the shipped ContentEvaluationResult based evaluators; the result is dumped into the evaluatable data,
+      "cer-recased" the same, but the requirement states in the dumped document are spelled 'Fulfilled' / 'fulfilled' ...
+                    (the schema documents that it reads them case-insensitively, e.g. from a non-Python backend)
+    """
     asts = ast_or_asts if (ast_or_asts and isinstance(ast_or_asts[0], list)) else [ast_or_asts]
     hints, fcs = {}, {}
     for ast in asts:
@@ -58,7 +71,21 @@ def setup_for(ast_or_asts, assignment, truth=None, packages=None, hint_texts=Non
                 hints[atom[1]] = (hint_texts or {}).get(atom[1], f"Hinweis {atom[1]}")
             elif atom[0] == "fc":
                 fcs[atom[1]] = True if truth is None else truth[atom[1]]
-    sut.setup_hardcoded(sut.make_cer(rc=assignment, fc=fcs, hints=hints, packages=packages or {}))
+    cer = sut.make_cer(rc=assignment, fc=fcs, hints=hints, packages=packages or {})
+    if style == "hardcoded":
+        sut.setup_hardcoded(cer)
+        return
+    _CER.set(cer)
+    schema = sut.ContentEvaluationResultSchema()
+
+    def data():
+        body = schema.dump(_CER.get())
+        if style == "cer-recased":
+            for index, (key, letter) in enumerate(sorted(assignment.items())):
+                body["requirement_constraints"][key] = _RECASE[letter][(index + len(assignment)) % 3]
+        return sut.evaluatable_data(body)
+
+    sut.configure(sut.create_content_evaluation_result_based_evaluators(sut.FMT, sut.VER), data)
 
 
 def outcome_of(result):
